@@ -19,8 +19,7 @@ CONSTANTS Add(_, _), Mul(_, _), Le(_, _),      \* numbers
           DivS(_, _), ModS(_, _),              \* number div Int -> number ; number mod Int -> Int   (Int small)
           OfInt(_),                            \* Int -> number
           Exact,                               \* TRUE: pro-rata bound without tolerance (small integers)
-          Tol,                                 \* number 10^12 (tolerance denominator) when ~Exact
-          E18                                  \* number 10^18 (one unit in the last place of sdk.Dec) when ~Exact
+          Tol                                  \* number 10^12 (tolerance denominator) when ~Exact
 
 Zero == OfInt(0)
 One  == OfInt(1)
@@ -130,15 +129,6 @@ ProRataOK(pay, alloc, e, tot) ==
   /\ IsZero(tot) => IsZero(pay)
   /\ IF Exact THEN Le(Mul(pay, tot), Mul(alloc, e))
      ELSE Le(Mul(Mul(pay, tot), Tol), Mul(Mul(alloc, e), Add(Tol, One)))
-(* The same bound with the slack of the code's fixed-point arithmetic: the multiplier alloc/total is rounded to 18   *)
-(* decimals before it is multiplied with the farmer's value (2*e/den), which can lift a payout by value*10^-18:      *)
-(* (plus one unit in the last place for the rounding of that product):                                               *)
-(*    pay <= alloc*e/tot*(1 + 10^-12) + (e/den + 1)*10^-18                                                            *)
-ProRataNoiseOK(pay, alloc, e, tot, den) ==
-  /\ IsZero(tot) => IsZero(pay)
-  /\ IF Exact THEN Le(Mul(pay, tot), Mul(alloc, e))
-     ELSE Le(Mul(Mul(Mul(Mul(pay, tot), Tol), den), E18),
-             Add(Mul(Mul(Mul(Mul(alloc, e), Add(Tol, One)), den), E18), Mul(Mul(Add(e, den), tot), Tol)))
 (* what is paid in one epoch is at most the allocation of that epoch; cumulative never above the deposit *)
 EpochCapOK(paid, alloc) == Le(paid, alloc)
 CumulativeOK(g) == Le(g.dist, g.dep) /\ g.trig <= g.tot
@@ -180,7 +170,7 @@ CreateOk(pools, now, a, minDur) ==
   /\ Le(a.dep, a.funds)
 
 Created(id, now, a) ==
-  [id |-> id, kind |-> "reg", denom |-> a.denom, dep |-> a.dep, dist |-> Zero, trig |-> 0, tot |-> a.tot,
+  [id |-> id, kind |-> "reg", denom |-> a.denom, ddenom |-> a.denom, dep |-> a.dep, dist |-> Zero, trig |-> 0, tot |-> a.tot,
    active |-> TRUE, start |-> a.start, dur |-> a.dur, pool |-> a.pool, master |-> a.master, childs |-> a.childs]
 
 (* ------------------------------------------------------------------------------------------------ *)
@@ -195,19 +185,42 @@ GaugeSkips(pools, g, now) ==
 GaugeEnds(g, now) == now >= g.start /\ g.active /\ g.trig = g.tot
 
 SameGauge(g, g2) == /\ g2.trig = g.trig /\ g2.active = g.active /\ g2.tot = g.tot /\ Eq(g2.dep, g.dep) /\ Eq(g2.dist, g.dist)
+                    /\ g2.denom = g.denom /\ g2.ddenom = g.ddenom
 
+(* payouts are floor(alloc*value/total) in fixed point: their sum never exceeds the allocation, the epoch always books *)
 GaugeEpochRel(pools, g, now, paid, g2) ==
   IF GaugeEnds(g, now) THEN /\ g2.active = FALSE /\ g2.trig = g.trig /\ Eq(g2.dist, g.dist) /\ Eq(g2.dep, g.dep) /\ IsZero(paid)
+                            /\ g2.denom = g.denom /\ g2.ddenom = g.ddenom
   ELSE IF GaugeSkips(pools, g, now) THEN SameGauge(g, g2) /\ IsZero(paid)
-  ELSE \/ /\ g2.trig = g.trig + 1 /\ g2.active = g.active /\ Eq(g2.dep, g.dep)
-          /\ Eq(g2.dist, Add(g.dist, paid)) /\ Le(paid, AllocOf(g.dep, g.tot, g.trig + 1))
-       \/ SameGauge(g, g2) /\ IsZero(paid)     \* computed sum above the allocation: ErrInvalidCalculatedAMount, nothing paid
+  ELSE /\ g2.trig = g.trig + 1 /\ g2.active = g.active /\ Eq(g2.dep, g.dep) /\ g2.denom = g.denom /\ g2.ddenom = g.ddenom
+       /\ Eq(g2.dist, Add(g.dist, paid)) /\ Le(paid, AllocOf(g.dep, g.tot, g.trig + 1))
 
-(* the ideal payout floor(alloc*e/tot); the code's sdk.Dec/float path may land slightly beside it:        *)
-(* exact algebra: one below at most ; real-size algebra: within the tolerance (+ fixed-point slack) and two units *)
-PayNear(pay, alloc, e, tot, den) ==
+(* the payout the code computes: floor(alloc*e/tot) (value.MulInt(alloc).QuoTruncate(total).TruncateInt()) *)
+PayExact(pay, alloc, e, tot) ==
   IF IsZero(tot) THEN IsZero(pay)
-  ELSE IF Exact THEN Le(Mul(pay, tot), Mul(alloc, e)) /\ Lt(Mul(alloc, e), Mul(Add(pay, OfInt(2)), tot))
-  ELSE /\ ProRataNoiseOK(pay, alloc, e, tot, den)
-       /\ Lt(Mul(Mul(alloc, e), Tol), Mul(Mul(Add(pay, OfInt(2)), tot), Add(Tol, One)))
+  ELSE Le(Mul(pay, tot), Mul(alloc, e)) /\ Lt(Mul(alloc, e), Mul(Add(pay, One), tot))
+
+(* ------------------------------------------------------------------------------------------------ *)
+(* Swap-fee gauges (one per pool, created with the pool, ForSwapFee): the deposit is what was collected *)
+(* from the pair's swap-fee collector and not yet paid; an epoch pays the whole deposit pro rata and then   *)
+(* pulls the collector's balance of the app's CURRENT distribution denom (generic param SwapFeeDistrDenom, *)
+(* minus the burn share SwapFeeBurnRate = burn.num/burn.den). The deposit and the distributed total carry  *)
+(* their own denoms (denom / ddenom): after a governance change of the distribution denom the deposit       *)
+(* restarts in the new denom, and the distributed total restarts with the first payout in it.               *)
+BurnOf(avail, burn) == DivS(Mul(avail, OfInt(burn.num)), burn.den)
+RecvOK(avail, burn, recv) == Eq(Add(recv, BurnOf(avail, burn)), avail)      \* recv = avail - floor(avail*rate)
+
+SwapBlocked(pools, g) ==      \* nothing happens to the gauge in this epoch
+  \/ ~IsZero(g.dep) /\ ~Distributable(pools, g)                 \* BeginRewardDistributions fails
+  \/ IsZero(g.dep) /\ ~(pools[g.pool].exists /\ ~pools[g.pool].disabled)   \* TransferFundsForSwapFeeDistribution fails
+(* g2 after the epoch; paid = sum of the payouts (in g.denom); recv = coins pulled from the collector (in distr) *)
+SwapEpochRel(pools, g, distr, recv, paid, g2) ==
+  IF SwapBlocked(pools, g) THEN SameGauge(g, g2) /\ IsZero(paid)
+  ELSE /\ g2.trig = g.trig + 1 /\ g2.active = g.active /\ g2.tot = g.tot
+       /\ Le(paid, g.dep)
+       /\ g2.denom = distr
+       /\ IF g.denom = distr THEN Eq(Add(g2.dep, paid), Add(g.dep, recv)) ELSE Eq(g2.dep, recv)
+       /\ IF IsZero(g.dep) THEN g2.ddenom = g.ddenom /\ Eq(g2.dist, g.dist) /\ IsZero(paid)
+          ELSE IF g.ddenom = g.denom THEN g2.ddenom = g.ddenom /\ Eq(g2.dist, Add(g.dist, paid))
+          ELSE g2.ddenom = g.denom /\ Eq(g2.dist, paid)
 =============================================================================
